@@ -4,7 +4,7 @@
 set -u
 id="$1"; name="$2"; needs="$3"; shift 4
 mkdir -p /verif/seeded/$name
-/verif/tools/confirm_seeded.sh $id > /verif/seeded/$name/confirm.log 2>&1
+if [ -n "${CONFIRM_LOG:-}" ]; then cp "$CONFIRM_LOG" /verif/seeded/$name/confirm.log; else /verif/tools/confirm_seeded.sh $id > /verif/seeded/$name/confirm.log 2>&1; fi
 cp /tmp/wt-$id/seeded/patch.diff /tmp/wt-$id/seeded/demo_test.go /tmp/wt-$id/seeded/notes.md /verif/seeded/$name/ 2>/dev/null
 res=$(/verif/tools/try_patch.sh /verif/seeded/$name/patch.diff ${SECS:-12} "$@" 2>&1)
 echo "$res" > /verif/seeded/$name/checks.log
